@@ -243,15 +243,28 @@ func run(e *core.Env) {
 	// ... and the mirror image: 5-tuples on which R accepted something from the
 	// mesh; R's replies on those are the same stateful behaviour.
 	rInbound := map[string]bool{}
+	rRefused := map[string]bool{}
 	tuple := func(remote netip.Addr, proto uint8, lport, rport uint16) string {
 		return fmt.Sprintf("%s/%d/%d/%d", remote, proto, lport, rport)
 	}
+
+	// Earlier packets, for histories on one 5-tuple: a repeated inbound packet, and the mirror
+	// image of a packet R's own interface tried to send (whether or not R let it out).
+	type flow struct {
+		si           int
+		proto        uint8
+		sport, dport uint16
+	}
+	var prevIn, prevOut []flow
+	// Routers about which R was sent an error ping in this run: such a ping may legitimately
+	// make R drop packets it would otherwise admit (the statement only says when a packet may
+	// be handed over, never that it must be), so "admitted but dropped" is not judged for them.
+	disturbed := map[netip.Addr]bool{}
 
 	seq := 0
 	inbound := func() {
 		seq++
 		si := 1 + tp.Intn(3)
-		sender := nodes[si]
 		proto := []uint8{6, 17, 58, 6, 17, 1, 47, 0, 255, uint8(tp.Intn(256))}[tp.Intn(10)]
 		var dport uint16
 		switch {
@@ -261,6 +274,17 @@ func run(e *core.Env) {
 			dport = []uint16{0, 80, 443, 65535, uint16(tp.Intn(65536))}[tp.Intn(5)]
 		}
 		sport := uint16(1024 + tp.Intn(60000))
+		switch mode := tp.Intn(5); {
+		case mode == 0 && len(prevIn) > 0:
+			fl := prevIn[tp.Intn(len(prevIn))]
+			si, proto, sport, dport = fl.si, fl.proto, fl.sport, fl.dport
+			e.Probe("inbound_repeats_earlier_tuple")
+		case mode == 1 && len(prevOut) > 0:
+			fl := prevOut[tp.Intn(len(prevOut))]
+			si, proto, sport, dport = fl.si, fl.proto, fl.dport, fl.sport
+			e.Probe("inbound_mirrors_local_packet_of_R")
+		}
+		sender := nodes[si]
 		innerSrc, innerDst := sender.IP, R.IP
 		frameSrc := sender.IP
 		sealer := sender
@@ -326,6 +350,7 @@ func run(e *core.Env) {
 		e.Ev("in", uint64(si), uint64(proto), uint64(dport), b2u(delivered), b2u(want))
 		if lie == "" {
 			rInbound[key] = true
+			prevIn = append(prevIn, flow{si, proto, sport, dport})
 		}
 		if rOutbound[key] {
 			e.Probe("inbound_on_reply_tuple_not_judged")
@@ -339,6 +364,12 @@ func run(e *core.Env) {
 				cls = "spoofed-or-unauthenticated-packet-delivered/" + lie
 			}
 			e.Fail(cls, "%s was handed to the local interface", desc)
+		case !delivered && want && disturbed[sender.IP]:
+			e.Probe("admitted_but_dropped_after_error_ping_not_judged")
+		case !delivered && want && rRefused[key]:
+			// R's own refused packet left a non-allowed state on this 5-tuple; dropping the
+			// mirror image is stricter than the statement asks, never laxer.
+			e.Probe("admitted_but_dropped_on_tuple_of_refused_local_packet_not_judged")
 		case !delivered && want:
 			scheme := why
 			if i := strings.Index(why, "://"); i > 0 {
@@ -390,13 +421,6 @@ func run(e *core.Env) {
 		buf := o.Inst.Builder.GetPooledSlice(len(pkt))
 		copy(buf, pkt)
 		before := len(ms.Net.Crossings)
-		if oi == 0 {
-			lp, rp := sport, dport
-			if proto == 58 {
-				lp, rp = 0, 0
-			}
-			rOutbound[tuple(dst, proto, lp, rp)] = true
-		}
 		if oi != 0 && dst == R.IP && src == o.IP {
 			// traffic from another node's local interface towards R is inbound traffic for R
 			lp, rp := dport, sport
@@ -425,6 +449,23 @@ func run(e *core.Env) {
 			frames, _ := drainTun(n)
 			for _, g := range frames {
 				g.ReturnToPool()
+			}
+		}
+		if oi == 0 {
+			lp, rp := sport, dport
+			if proto == 58 {
+				lp, rp = 0, 0
+			}
+			// Only a packet R really let out opens a connection whose replies are stateful.
+			if left {
+				rOutbound[tuple(dst, proto, lp, rp)] = true
+			} else {
+				rRefused[tuple(dst, proto, lp, rp)] = true
+			}
+			for k := 1; k < 4; k++ {
+				if nodes[k].IP == dst && src == o.IP {
+					prevOut = append(prevOut, flow{k, proto, lp, rp})
+				}
 			}
 		}
 		okSrc := src == o.IP
@@ -470,11 +511,35 @@ func run(e *core.Env) {
 	nOps := 6 + tp.Intn(40)
 	for op := 0; op < nOps; op++ {
 		e.Step()
-		switch tp.Pick(8, 3, 2) {
+		switch tp.Pick(8, 3, 2, 1) {
 		case 0:
 			inbound()
 		case 1:
 			outbound()
+		case 3:
+			// an authentic error ping to R: some router reports a router unreachable, or a
+			// destination service as rejecting / denying
+			from := nodes[1+tp.Intn(3)]
+			about := nodes[1+tp.Intn(3)].IP
+			proto, port := uint8(6), uint16(tp.Intn(65536))
+			if len(prevIn) > 0 && tp.Chance(2, 3) {
+				fl := prevIn[tp.Intn(len(prevIn))]
+				about, proto, port = nodes[fl.si].IP, fl.proto, fl.sport
+			}
+			var err error
+			switch tp.Intn(3) {
+			case 0:
+				err = from.Router.ErrorPing.SendUnreachable(R.IP, about)
+			case 1:
+				err = from.Router.ErrorPing.SendRejected(R.IP, about, proto, port)
+			default:
+				err = from.Router.ErrorPing.SendAccessDenied(R.IP, about, proto, port)
+			}
+			_ = err
+			disturbed[about] = true
+			simnet.Wait()
+			ms.Net.DrainFIFO(tp, 500)
+			e.Fault("error_ping_about_peer")
 		default:
 			// time gaps that cross the 10 s / 10 min connection-state expiries
 			// and the 10 s error cool-downs
